@@ -191,7 +191,8 @@ class NuWiki:
                 if page and page.rawtext:
                     redirect = self.nshandler.redirect_matcher(page.rawtext)
                     if redirect:
-                        return self.get_page(self.nshandler.get_fqname(redirect))
+                        # (the revision itself, if the page it points to is not in the archive)
+                        return self.get_page(self.nshandler.get_fqname(redirect)) or page
                 return page
 
         oldname = name
